@@ -253,6 +253,38 @@ def attribute_named_pin_designs():
         yield (f"attribute-named-pins/d{depth}", mk(depth))
 
 
+def sibling_name_designs():
+    """hierarchical siblings of DIFFERENT modules where one sibling's internal net (or port) is called like another
+    sibling's port, in both orders; nets stay apart unless the design joins them"""
+    import hdl21 as h
+    import itertools as it
+
+    def mk(order):
+        def b():
+            A = h.Module(name="SbA")
+            A.bias, A.o = h.Port(), h.Port()
+            A.r = h.R(r=1)(p=A.bias, n=A.o)
+            B = h.Module(name="SbB")
+            B.i, B.o = h.Port(), h.Port()
+            B.bias = h.Signal()                     # an INTERNAL net called like A's port
+            B.r1 = h.R(r=2)(p=B.i, n=B.bias)
+            B.r2 = h.R(r=3)(p=B.bias, n=B.o)
+            C = h.Module(name="SbC")
+            C.o, C.x = h.Port(), h.Port()
+            C.i = h.Signal()                        # called like B's port
+            C.r1 = h.R(r=4)(p=C.o, n=C.i)
+            C.r2 = h.R(r=5)(p=C.i, n=C.x)
+            top = h.Module(name="SbTop")
+            top.vb, top.inp, top.mid, top.out = h.Port(), h.Port(), h.Signal(), h.Port()
+            insts = {"a": lambda: A(bias=top.vb, o=top.mid), "b": lambda: B(i=top.inp, o=top.mid), "c": lambda: C(o=top.out, x=top.mid)}
+            for k in order:
+                top.add(insts[k](), name=f"u_{k}")
+            return top
+        return b
+    for order in it.permutations("abc"):
+        yield (f"sibling-names/{''.join(order)}", mk(order))
+
+
 def flat_top_designs():
     """single-level tops (only leaf devices below them) that have NOT been elaborated and use what elaboration resolves:
     arrays, port references, no-connects, bundles, instance pairs; the `invalid/` ones must be refused"""
@@ -398,7 +430,7 @@ def run(ctx):
     ctx.assumptions.append("flattened-name injectivity is proved for paths of up to 3 instances (arity unrolled); walk() "
                            "itself (a recursive generator) and flatten()'s assembly loops are decided by the bounded part")
     fam = [d for k, d in enumerate(design_family(ctx.tier, ctx.seed)) if ctx.tier == "thorough" or k % 3 == 0]
-    cases = itertools.chain(hier_designs(ctx.tier, ctx.seed), flat_top_designs(), shared_module_designs(), attribute_named_pin_designs(), fam)
+    cases = itertools.chain(hier_designs(ctx.tier, ctx.seed), flat_top_designs(), shared_module_designs(), attribute_named_pin_designs(), sibling_name_designs(), fam)
     ctx.run_bounded("flatten-vs-original", cases, check_flatten,
                     rule="generated scalar/bus hierarchies (depth 1-3, primitive and external-module leaves, internal "
                          "nets at every level, ports passed through levels, names colliding with ':'-joined paths) plus "
@@ -414,7 +446,7 @@ def run(ctx):
 
 def replay(payload):
     want = (payload.get("input") or {}).get("design")
-    for desc, b in itertools.chain(hier_designs("quick", 0), flat_top_designs(), shared_module_designs(), attribute_named_pin_designs(), design_family("thorough", 0)):
+    for desc, b in itertools.chain(hier_designs("quick", 0), flat_top_designs(), shared_module_designs(), attribute_named_pin_designs(), sibling_name_designs(), design_family("thorough", 0)):
         if desc == want:
             r = check_flatten((desc, b))
             print("replay:", r)
